@@ -116,14 +116,22 @@ RECURSIVE FlagAll(_, _)
 FlagAll(s, keys) == IF keys = {} THEN s ELSE LET k == CHOOSE x \in keys : TRUE IN FlagAll(Flag(s, k), keys \ {k})
 
 OpOf(x) == IF x.node.op # "" THEN x.node.op ELSE x.node.k
+\* a function entry that is also reached without a call (a jump or branch to the function's label, or code falling
+\* into it): the analysis restarts "saved registers and sp hold their entry values" there - a recorded finding with
+\* one key of its own, so that false claims in all other programs keep their precise keys
+EntryReachedWithoutCall(cfg) ==
+  \E i \in 1..NN(cfg) : cfg.nodes[i].node.k = "FuncEntry" /\ Len(cfg.nodes[i].prevs) > 0
+ClaimKeys(cfg, keys) ==
+  IF keys # {} /\ EntryReachedWithoutCall(cfg)
+    THEN { "C01:false-claim:program-reaches-a-function-entry-without-a-call" } ELSE keys
 \* only the first step with a false claim is reported per execution (later ones are consequences)
 FlagClaims(s, keys) == IF s.c01 \/ keys = {} THEN s ELSE [FlagAll(s, keys) EXCEPT !.c01 = TRUE]
 CheckClaimsIn(cfg, s)  ==
   LET w == "before-" \o OpOf(cfg.nodes[s.pc]) IN
-  FlagClaims(s, RegClaimsBad(s, cfg.nodes[s.pc].rin, w) \cup MemClaimsBad(s, cfg.nodes[s.pc].min, w))
+  FlagClaims(s, ClaimKeys(cfg, RegClaimsBad(s, cfg.nodes[s.pc].rin, w) \cup MemClaimsBad(s, cfg.nodes[s.pc].min, w)))
 CheckClaimsOut(cfg, s, n) ==
   LET w == "after-" \o OpOf(cfg.nodes[n]) IN
-  FlagClaims(s, RegClaimsBad(s, cfg.nodes[n].rout, w) \cup MemClaimsBad(s, cfg.nodes[n].mout, w))
+  FlagClaims(s, ClaimKeys(cfg, RegClaimsBad(s, cfg.nodes[n].rout, w) \cup MemClaimsBad(s, cfg.nodes[n].mout, w)))
 
 \* ------------------------------------------------------------- C02: live monitor
 \* programs in which a function entry is also the target of a plain jump or branch
